@@ -259,8 +259,12 @@ func c15Join(a []string) string {
 	select {
 	case out = <-obs.out:
 	case <-done:
-		out = "ended-before-play"
-	case <-time.After(c15WatchdogDur()):
+		select {
+		case out = <-obs.out:
+		default:
+			out = "ended-before-play"
+		}
+	case <-time.After(3*c15WatchdogDur() + time.Second): // the observer itself waits one watchdog period for its write
 		atomic.AddInt32(&c15Expired, 1)
 		out = "no-play"
 	}
